@@ -88,7 +88,7 @@ f21(9, 'fixed', '// comment does not advance the column: the newline error after
 f21(10, 'fixed', 'after a {# #} comment spanning lines the columns of its last line lag by 2', tmpl('https:{# a\nbç #}//{{ domain9 }}'), 'C21-lexer-multiline-comment-column.diff')
 f21(11, 'fixed', 'Markdown: the column is not advanced over http:// / https://', tmpl('[a](https://x.y/{{ nil }})\n', 'index.md'), 'C21-lexer-markdown-url-column.diff')
 f21(12, 'fixed', 'Markdown: the four spaces / tab opening an indented code block are not counted in the column', tmpl('# T\n\n    code {{ nil }}\n', 'index.md'), 'C21-lexer-markdown-codeblock-column.diff')
-f21(13, 'fixed', 'unary operator followed by a binary operator: Start excludes the operator character', tmpl('a{% *a+*b %}'), 'C21-parser-unary-operator-start.diff')
+f21(13, 'open', '[check|before:unary-operator] a unary operator (+ - ! ^ * & <- not) followed by a binary operator loses its own bytes from Start: parseExpr moves the Start of the pending unary operators to the Start of their operand, so Line/Column name the operator and Start the operand (they disagree by the operator width, 2 for <-). The one-hunk repair needs the expected positions of the repository test for *a+*b to be corrected (that test says its positions were altered to make it pass), so it is recorded, not repaired. Class (structural, any message): line:column map to a byte X < Start such that the bytes X..Start consist of unary operators, white space and comments only.', tmpl('a{% *a+*b %}'), scope='check|before:unary-operator')
 f21(14, 'fixed', '"function main is undeclared in the main package" is reported at 0:0', prog('package main\n\nfunc f() {}\n'), 'C21-checker-main-undeclared-position.diff')
 f21(15, 'fixed', 'limit errors of programs name the path "main" instead of the file', None, 'C21-limit-error-path.diff')
 f21(16, 'fixed', '"predeclared identifier itea not used" names the extended/importing file for a using statement of another file', tmpl('{% extends "extended.html" %}\n{% var V = 1; using %}content...{% end using %}', extra=[('extended.html', 'x')]), 'C21-itea-not-used-path.diff')
